@@ -33,7 +33,8 @@ def neighbours_of(rng, f, evs):
         return e
 
     def adj_hex(h):
-        b = bytearray(bytes.fromhex(h))
+        # (a filter may carry hex strings of more than 64 digits; a stored event's id / pubkey is 32 bytes)
+        b = bytearray(bytes.fromhex(h[:64]))
         r = rng.random()
         i = rng.choice([0, 15, 31])
         if r < 0.4:
@@ -51,7 +52,7 @@ def neighbours_of(rng, f, evs):
     for k in f.get("kinds", []):
         for d in (-1, 1, 256, -256, 65536):
             if k + d >= 0 and not (10000 <= k + d < 40000) and k + d not in (0, 3, 5):
-                out.append(mk(kind=k + d, pubkey=(f.get("authors") or [rng.choice(gen.AUTHORS[:4])])[0]))
+                out.append(mk(kind=k + d, pubkey=(f.get("authors") or [rng.choice(gen.AUTHORS[:4])])[0][:64]))
     for i in f.get("ids", []):
         out.append(mk(id=adj_hex(i)))
     for k, vals in f.items():
